@@ -5,8 +5,8 @@ MusicXML reader itself uses for the same notation (directions through partitura.
 explicit, every note carries its symbolic duration - so the expected result of load(save(s)) is s itself."""
 from fractions import Fraction
 
-FEATURES = ["pickup", "chord", "two_voices", "two_staves", "tie_barline", "tie_chain", "tie_cross_voice", "grace", "grace_chain", "slur", "slur_chain", "slur_barline",
-            "tuplet", "dynamics", "wedge", "dashes", "words", "pedal", "pedal_barline", "tempo", "tempo_mid", "repeat", "ending", "fermata_note", "fermata_barline", "fermata_inner_barline",
+FEATURES = ["pickup", "chord", "two_voices", "two_staves", "tie_barline", "tie_chain", "tie_cross_voice", "grace", "grace_chain", "slur", "slur_chain", "slur_overlap", "slur_barline",
+            "tuplet", "dynamics", "wedge", "wedge_overlap", "dashes", "words", "pedal", "pedal_barline", "tempo", "tempo_mid", "repeat", "ending", "fermata_note", "fermata_barline", "fermata_inner_barline",
             "articulation", "articulation_order", "fingering", "stem", "unpitched", "rests", "key_change", "ts_change", "clef_change", "divisions_change",
             "divisions_change_mid", "dotted", "page", "two_parts", "group", "nested_group", "nested_group_first", "voice_gap", "polyphony", "polyphony_two_voices",
             "measure_names", "irregular_measure", "accidentals", "duplicate_ids"]
@@ -197,6 +197,11 @@ def build(features, pid="P1", seed=0):
         a, b, c = B.byid["n0"], B.byid["n2"], B.byid["n3"]
         part.add(sc.Slur(a, b), a.start.t, b.end.t)
         part.add(sc.Slur(b, c), b.start.t, c.end.t)
+    if "slur_overlap" in f:
+        # A ends while B is open, then C starts while B is still open
+        for x, y in (("n0", "n2"), ("n1" if "n1" in B.byid else "n0", "n5"), ("n3", "n6")):
+            a, b = B.byid[x], B.byid[y]
+            part.add(sc.Slur(a, b), a.start.t, b.end.t)
     if "slur_barline" in f:
         a, b = B.byid["n5"], B.byid["n6"]
         part.add(sc.Slur(a, b), a.start.t, b.end.t)
@@ -211,6 +216,10 @@ def build(features, pid="P1", seed=0):
         part.add(sc.ConstantLoudnessDirection("f"), B.t(m1 + 1))
         part.add(sc.ImpulsiveLoudnessDirection("sfz"), B.t(m2))
         part.add(sc.ConstantLoudnessDirection("pp", staff=(2 if "two_staves" in f else None)), B.t(m3))
+    if "wedge_overlap" in f:
+        part.add(sc.IncreasingLoudnessDirection("crescendo", wedge=True), B.t(m1), B.t(m1 + 2))
+        part.add(sc.DecreasingLoudnessDirection("diminuendo", wedge=True), B.t(m1 + 1), B.t(m2 + 2))
+        part.add(sc.IncreasingLoudnessDirection("crescendo", wedge=True), B.t(m2), B.t(m3))
     if "wedge" in f:
         part.add(sc.IncreasingLoudnessDirection("crescendo", wedge=True), B.t(m2), B.t(m2 + 1))
         part.add(sc.DecreasingLoudnessDirection("diminuendo", wedge=True), B.t(m3), B.t(m3 + 2))
